@@ -536,6 +536,10 @@ def spec_check(case, isteps):
                 if not expect_with(d.get("gU", "-"), cur_uv, near_half if kind == "S" else exact):
                     fails.append(("UVs are not read back after save and reload", {"step": st["op"], "got": d.get("gU", "-")[:120]}))
             cur_t = wt
+            if halfv:
+                cur_v = [half_rt_bits(x) for x in cur_v]
+            if kind == "S" and cur_uv is not None:
+                cur_uv = [half_rt_bits(x) for x in cur_uv]
             stale_colors = False
         # frame: every other getter returns exactly what it returned before
         if frame_exempt is not None:
@@ -693,7 +697,7 @@ def run(tier, seed, replay=None):
         "correspondence_mismatches": len(mism),
         "spec_failures_on_impl": nspec,
         "known_finding_hits": nknown,
-        "unproved": [],
+        "unproved": ["CalcDataSizes keeps the flag bits 44..59 of the vertex descriptor (bit-level argument through SetAttributeOffset/SetSize/SetFlags): modelled and compared with the implementation's descriptor word on every save, not proved; the reload theorems are therefore stated on the finalised descriptor"],
         "trusted_base": vlib.BASE_TRUSTED + [
             "modelled, not verified: std::vector (lists; loops walk vectors with the counter and fault when a vector ends first)",
             "not modelled (Section variables without assumptions): Miniball bounding sphere, tangent-space arithmetic, binary16 conversion (half.hpp)",
